@@ -78,11 +78,41 @@ type gateX struct {
 func execGateCase(c *Case) []ModeResult {
 	verdict, short := gateOnce(nil, c, false)
 	v2, s2 := gateOnce(nil, c, true)
-	return []ModeResult{{"gate", verdict, short}, {"gate:spare-capacity", v2, s2}}
+	out := []ModeResult{{"gate", verdict, short}, {"gate:spare-capacity", v2, s2}}
+	if gateHasEqualNeighbours(c) {
+		// consecutive positions of one element type and shape may hold the very same tensor object (Gather(x, x), Concat(v, v, v)):
+		// every position is still checked against ITS constraint
+		v3, s3 := gateOnceObj(nil, c, false, true)
+		out = append(out, ModeResult{"gate:equal-positions-one-object", v3, s3})
+	}
+	return out
+}
+
+func gateHasEqualNeighbours(c *Case) bool {
+	var x gateX
+	if err := json.Unmarshal(c.X, &x); err != nil {
+		return false
+	}
+	kind := func(i int) string {
+		if i < len(x.Shk) {
+			return x.Shk[i]
+		}
+		return "one"
+	}
+	for i := 1; i < len(x.Dts); i++ {
+		if x.Dts[i] != "nil" && x.Dts[i] == x.Dts[i-1] && kind(i) == kind(i-1) {
+			return true
+		}
+	}
+	return false
 }
 
 // gateOnce puts one input list through the gate of op (a fresh instance of c.Op when op is nil).
 func gateOnce(op ops.Operator, c *Case, spare bool) (string, string) {
+	return gateOnceObj(op, c, spare, false)
+}
+
+func gateOnceObj(op ops.Operator, c *Case, spare, oneObject bool) (string, string) {
 	var x gateX
 	if err := json.Unmarshal(c.X, &x); err != nil {
 		return "infra:" + err.Error(), ""
@@ -104,6 +134,10 @@ func gateOnce(op ops.Operator, c *Case, spare bool) (string, string) {
 			case "mat":
 				shape, n = []int{2, 3}, 6
 			}
+		}
+		if oneObject && i > 0 && inputs[i-1] != nil && x.Dts[i-1] == d && (i >= len(x.Shk) || x.Shk[i] == x.Shk[i-1]) {
+			inputs[i] = inputs[i-1]
+			continue
 		}
 		data := make([]Elem, n)
 		for k := range data {
